@@ -734,14 +734,16 @@ def chain_allreduce_jit(ranks, gid, t, seq0, nbytes=524288, xfer=50, pause=0):
     sync = f"{cg}_s{last}_r0x7_{2*last}"
     peers = ",".join(str(p) for p in range(R - 1))
     sq = seq0 + 30
-    ranks[last].dev_event(f"SenRdmaSend_{sq} - Set BcList [sync={sync}] DmaO", TS, [cur - 1, cur - 1, cur, cur, cur + 10],
+    # BC list, the R-1 segments and the data send follow each other on the send lane (no overlap: more than five
+    # overlapping slices on one lane exhaust the overlap stage's tid budget, which is not this property's business)
+    ranks[last].dev_event(f"SenRdmaSend_{sq} - Set BcList [sync={sync}] DmaO", TS, [cur - 1, cur - 1, cur, cur, cur + 1],
                           {"CollGroup": cg, "Peers": peers, "Type": "Set BCList"})
     for p in range(R - 1):
         ranks[last].dev_event(f"SenRdmaSend_{sq} - Xseg to rank {p} [sync={sync}] DmaO", TS,
-                              [cur - 1, cur - 1, cur + 1 + p, cur + 1 + p, cur + 11 + p],
+                              [cur - 1, cur - 1, cur + 1 + 2 * p, cur + 1 + 2 * p, cur + 2 + 2 * p],
                               {"CollGroup": cg, "Peer": str(p), "Type": "MultiCast XSEG"})
-    d_end = cur + xfer + 20
-    ranks[last].dev_event(f"SenRdmaSend_{sq} Data [sync={sync}] DmaO", TS, [cur - 1, cur - 1, cur + R, cur + R, d_end],
+    d_end = cur + 2 * R + xfer + 20
+    ranks[last].dev_event(f"SenRdmaSend_{sq} Data [sync={sync}] DmaO", TS, [cur - 1, cur - 1, cur + 2 * R, cur + 2 * R, d_end],
                           {"Bytes": str(nbytes), "CollGroup": cg, "Type": "MultiCast"})
     for p in range(R - 1):
         ranks[p].dev_event(f"SenRdmaReceive_{seq0+40+p} [{nbytes}B] [sync={sync}] DmaI", TR,
@@ -766,7 +768,7 @@ def e2e_files(spec):
         elif layout == "jit_seq":
             t = chain_allreduce_jit(ranks, gid, t, 1000 * gid)[0] + 50
         else:
-            inner = 60 * R + 150
+            inner = 62 * R + 150
             end, mstart = chain_allreduce_jit(ranks, gid, t, 1000 * gid, pause=inner + 40)
             gid += 1
             chain_allreduce_jit(ranks, gid, mstart - inner - 20, 1000 * gid)
@@ -936,6 +938,8 @@ def run(ctx: Ctx):
     specs = []
     for R in ((2, 3, 4) if ctx.quick() else (2, 3, 4, 5, 6, 8)):
         for layout in ("pre", "jit_seq", "jit_inter"):
+            if layout == "pre" and R > 5:
+                continue    # gen/scenario.py chain_allreduce overlaps R+1 sends on one lane: beyond the overlap tid budget
             specs.append({"R": R, "layout": layout, "groups": 2 if ctx.quick() else 3, "trunc": (R + len(layout)) % 2 == 0})
     if ctx.search_mode:
         specs = specs[:6]
